@@ -311,3 +311,7 @@ Proof. vm_compute. reflexivity. Qed.
    [rem c0 x <= n] (mt_check_sound) — a value behind c0 would need about 2^32 Adds *)
 Example rem_backwards : rem 2147483647 9 8 = 2147483647 - 9 + 8 - 1.
 Proof. vm_compute. reflexivity. Qed.
+
+Example id_in_window_ex : id_in_window 5 7 9 = true /\ id_in_window 2147483646 (-2147483647) (-2147483640) = true /\
+  id_in_window 5 15000 9 = false /\ id_in_window 5 5 9 = false /\ id_in_window 5 0 9 = false.
+Proof. vm_compute. repeat split; reflexivity. Qed.
